@@ -43,12 +43,9 @@ class _Runner(_Processor):
 
     @property
     def max_tasks_hit(self) -> bool:
-        return (
-            self.max_tasks
-            - self._tasks_processed
-            - (self._tasks_concurrency_limit - self._limiter._value)
-            <= 0
-        )
+        # only started tasks count: a slot of the limiter may belong to a consumer
+        # which hasn't started its task yet (and which won't, if it gets stopped)
+        return self.max_tasks - self._tasks_processed - len(self._tasks) <= 0
 
     @property
     def cancel_event_task(self) -> asyncio.Task:
@@ -105,9 +102,19 @@ class _Runner(_Processor):
                 # the message is already taken from the queue, but won't be processed
                 await self._conn.message_broker.reject(key)
                 raise
+            if self.max_tasks_hit:
+                # the limit of messages was reached while this message was being fetched
+                self._limiter.release()
+                self.stop_consume_event.set()
+                # stopping cancels this loop: the reject has to get through nevertheless
+                await asyncio.shield(self._conn.message_broker.reject(key))
+                return
             t = asyncio.create_task(self._process_with_event(actor, key, payload, params))
             self._tasks.add(t)
             t.add_done_callback(self._task_callback)
+            if self.max_tasks_hit:  # every allowed message is either done or in progress
+                self.stop_consume_event.set()
+                return
 
     async def run_one_queue(
         self,
